@@ -1,4 +1,4 @@
-//@ unit value primary=C03 props=C03,C04,C05,C08 disabled
+//@ unit value primary=C03 props=C03,C04,C05,C08
 // Unit value: crates/checker/src/common.rs::{check_value, is_value_compatible_type_def, get_variable_definition}
 // (every literal / variable at an argument, input field or list item position, in operations and in schema directives)
 // Oracle: GraphQL spec 5.6 Values of Correct Type with the input coercion rules of section 3 (fragment spec_value.rs):
@@ -80,6 +80,7 @@ pub proof fn lemma_usage_strict_implies_spec<S>(vd: VariableDefinition, loc: Typ
 //@ end
 
 /// strict ==> spec, for whole values (induction over the value, then the type)
+//@ lemma [C03.value.strict_implies_spec] lemma_value_strict_implies_spec
 pub proof fn lemma_value_strict_implies_spec<'src, S>(sch: &Schema<S, Pos>, vars: Option<&VariablesDefinition<'src>>, v: Value<'src>, t: Type<S, Pos>)
     requires value_ok(sch, vars, v, t, true),
     ensures value_ok(sch, vars, v, t, false),
@@ -135,22 +136,122 @@ pub open spec fn items_ok_upto<'src, S>(sch: &Schema<S, Pos>, vars: Option<&Vari
     forall|i: int| 0 <= i < n ==> value_ok(sch, vars, #[trigger] items[i], t, true)
 }
 
+/// ghost bookkeeping for `seen_fields`: exactly the indices of the supplied fields that are the FIRST field named like
+/// one of the first n field definitions
+pub open spec fn bound_ok<S>(bound: Set<int>, sup: Seq<(Ident, Value)>, defs: Seq<InputValue<S, Pos>>, n: int) -> bool {
+    &&& forall|x: int| bound.contains(x) ==> 0 <= x < sup.len() && exists|j: int| 0 <= j < n && is_first_named(sup, tv((#[trigger] defs[j]).name.inner), x)
+    &&& forall|j: int, x: int| 0 <= j < n && #[trigger] is_first_named(sup, tv(defs[j].name.inner), x) ==> bound.contains(x)
+}
+pub proof fn lemma_bound_insert<S>(bound: Set<int>, sup: Seq<(Ident, Value)>, defs: Seq<InputValue<S, Pos>>, n: int, x: int)
+    requires bound_ok(bound, sup, defs, n), 0 <= n < defs.len(), nodup(argdef_names(defs)), is_first_named(sup, tv(defs[n].name.inner), x),
+    ensures bound_ok(bound.insert(x), sup, defs, n + 1), !bound.contains(x), bound.insert(x).len() == bound.len() + 1,
+{
+    if bound.contains(x) {
+        let j = choose|j: int| 0 <= j < n && is_first_named(sup, tv((#[trigger] defs[j]).name.inner), x);
+        assert(argdef_names(defs)[j] == argdef_names(defs)[n]);
+    }
+    let b2 = bound.insert(x);
+    assert forall|y: int| b2.contains(y) implies 0 <= y < sup.len() && exists|j: int| 0 <= j < n + 1 && is_first_named(sup, tv((#[trigger] defs[j]).name.inner), y) by {
+        if y == x { assert(is_first_named(sup, tv(defs[n].name.inner), y)); }
+        else {
+            let j = choose|j: int| 0 <= j < n && is_first_named(sup, tv((#[trigger] defs[j]).name.inner), y);
+            assert(is_first_named(sup, tv(defs[j].name.inner), y));
+        }
+    }
+    assert forall|j: int, y: int| 0 <= j < n + 1 && #[trigger] is_first_named(sup, tv(defs[j].name.inner), y) implies b2.contains(y) by {
+        if j == n { if y < x { assert(sup[y].0.name@ != tv(defs[n].name.inner)); } if x < y { assert(sup[x].0.name@ != tv(defs[n].name.inner)); } }
+    }
+}
+pub proof fn lemma_bound_skip<S>(bound: Set<int>, sup: Seq<(Ident, Value)>, defs: Seq<InputValue<S, Pos>>, n: int)
+    requires bound_ok(bound, sup, defs, n), 0 <= n < defs.len(), !some_named(sup, tv(defs[n].name.inner)),
+    ensures bound_ok(bound, sup, defs, n + 1),
+{
+    assert forall|y: int| bound.contains(y) implies 0 <= y < sup.len() && exists|j: int| 0 <= j < n + 1 && is_first_named(sup, tv((#[trigger] defs[j]).name.inner), y) by {
+        let j = choose|j: int| 0 <= j < n && is_first_named(sup, tv((#[trigger] defs[j]).name.inner), y);
+        assert(is_first_named(sup, tv(defs[j].name.inner), y));
+    }
+    assert forall|j: int, y: int| 0 <= j < n + 1 && #[trigger] is_first_named(sup, tv(defs[j].name.inner), y) implies bound.contains(y) by {
+        if j == n { assert(sup[y].0.name@ == tv(defs[n].name.inner)); }
+    }
+}
+pub open spec fn fields_all_defined<S>(sup: Seq<(Ident, Value)>, defs: Seq<InputValue<S, Pos>>) -> bool {
+    forall|i: int| 0 <= i < sup.len() ==> argdef_names(defs).contains((#[trigger] sup[i]).0.name@)
+}
+/// the counting argument behind `seen_fields < value.fields.len()`
+pub proof fn lemma_bound_count<S>(bound: Set<int>, sup: Seq<(Ident, Value)>, defs: Seq<InputValue<S, Pos>>)
+    requires bound_ok(bound, sup, defs, defs.len() as int),
+    ensures (bound.len() >= sup.len()) <==> (nodup(sup_names(sup)) && fields_all_defined(sup, defs)),
+{
+    let full = vstd::set_lib::set_int_range(0, sup.len() as int);
+    vstd::set_lib::lemma_int_range(0, sup.len() as int);
+    assert(bound.subset_of(full));
+    vstd::set_lib::lemma_len_subset(bound, full);
+    if bound.len() >= sup.len() {
+        vstd::set_lib::lemma_subset_equality(bound, full);
+        assert forall|i: int| 0 <= i < sup.len() implies argdef_names(defs).contains((#[trigger] sup[i]).0.name@) by {
+            assert(full.contains(i)); assert(bound.contains(i));
+            let j = choose|j: int| 0 <= j < defs.len() && is_first_named(sup, tv((#[trigger] defs[j]).name.inner), i);
+            assert(argdef_names(defs)[j] == sup[i].0.name@);
+        }
+        assert forall|x: int, y: int| 0 <= x < y < sup.len() implies sup_names(sup)[x] != sup_names(sup)[y] by {
+            assert(full.contains(y)); assert(bound.contains(y));
+            let j = choose|j: int| 0 <= j < defs.len() && is_first_named(sup, tv((#[trigger] defs[j]).name.inner), y);
+            assert(sup[x].0.name@ != tv(defs[j].name.inner));
+        }
+    }
+    if nodup(sup_names(sup)) && fields_all_defined(sup, defs) {
+        assert forall|i: int| full.contains(i) implies bound.contains(i) by {
+            assert(argdef_names(defs).contains(sup[i].0.name@));
+            let j = choose|j: int| 0 <= j < argdef_names(defs).len() && argdef_names(defs)[j] == sup[i].0.name@;
+            assert(is_first_named(sup, tv(defs[j].name.inner), i)) by {
+                assert forall|k: int| 0 <= k < i implies (#[trigger] sup[k]).0.name@ != tv(defs[j].name.inner) by { assert(sup_names(sup)[k] != sup_names(sup)[i]); }
+            }
+        }
+        assert(full.subset_of(bound));
+        vstd::set_lib::lemma_len_subset(full, bound);
+    }
+}
+pub open spec fn fields_ok_upto<'src, S>(sch: &Schema<S, Pos>, vars: Option<&VariablesDefinition<'src>>, v: Value<'src>, defs: Seq<InputValue<S, Pos>>, n: int) -> bool {
+    forall|j: int| 0 <= j < n ==> field_ok(sch, vars, v, #[trigger] defs[j], true)
+}
+pub proof fn lemma_fields_step<'src, S>(sch: &Schema<S, Pos>, vars: Option<&VariablesDefinition<'src>>, v: Value<'src>, defs: Seq<InputValue<S, Pos>>, n: int)
+    requires 0 <= n < defs.len(),
+    ensures fields_ok_upto(sch, vars, v, defs, n + 1) == (fields_ok_upto(sch, vars, v, defs, n) && field_ok(sch, vars, v, defs[n], true)),
+{
+    if fields_ok_upto(sch, vars, v, defs, n + 1) { assert(field_ok(sch, vars, v, defs[n], true)); }
+}
+
 //@ contract nitrogql_checker::common ::fn is_value_compatible_type_def
-//@   attr #[verifier::external_body]
+//@   unexternal
 //@   ret r
 //@   requires [C03+C04+C05.value.named.pre_schema_wf] crate::schema_wf(definitions)
 //@   requires [C03+C04+C05.value.named.pre_not_variable] !(value is Variable)
+//@   requires [C03+C04+C05.value.named.pre_unique_fields] expected_type is InputObject ==> crate::nodup(crate::argdef_names(expected_type->InputObject_0.fields@))
 //@   ensures [C03+C04+C05.value.named.frame] crate::extends_errs(old(result)@, final(result)@)
 //@   ensures [C03+C04+C05.value.named.exact_strict] (r.0 && final(result)@.len() == old(result)@.len()) <==> crate::named_ok(definitions, variables, *value, *expected_type, true)
 //@   decreases [C03+C04+C05.value.named.terminates] *value, 1nat
+//@   prefix broadcast use crate::text_model; let ghost v0 = *value; let ghost len0 = result@.len(); proof { crate::axiom_text_obeys::<S>(); crate::axiom_text_obeys_str::<S>(); }
+//@   loops 2
+//@   closure 0 |v: &crate::graphql_type_system::definitions::EnumMember<S, Pos>| -> (b: bool) ;; ensures [C03+C04+C05.value.named.cl_enum] b == (crate::tv(v.name.inner) != enum_name@)
+//@   closure 1 |p__: &&(crate::nitrogql_ast::base::Ident<'src>, Value<'src>)| -> (b: bool) ;; ensures [C03+C04+C05.value.named.cl_find] b == (crate::tv(expected_field.name.inner) == (**p__).0.name@)
+//@   hint before 0 "let mut seen_fields = 0;" :: [C03+C04+C05.value.named.h_init] let ghost mut bound: Set<int> = Set::empty(); let ghost sup = value__obj.fields@; let ghost defs = object_def.fields@; proof { assert(v0 == Value::ObjectValue(*value__obj)); crate::axiom_vec_len_bound(&value__obj.fields); }
+//@   loop 0 iter_name it
+//@   loop 0 invariant [C03+C04+C05.value.fields.iter] it.seq().len() == defs.len() && 0 <= it.index@ <= it.seq().len() && (forall|i: int| 0 <= i < it.seq().len() ==> *it.seq()[i] == defs[i]) && defs == object_def.fields@ && sup == value__obj.fields@ && *value == Value::ObjectValue(*value__obj) && v0 == *value && sup.len() <= usize::MAX
+//@   loop 0 invariant [C03+C04+C05.value.fields.frame] crate::extends_errs(old(result)@, result@) && len0 == old(result)@.len() && crate::schema_wf(definitions) && crate::nodup(crate::argdef_names(defs))
+//@   loop 0 invariant [C03+C04+C05.value.fields.bound] crate::bound_ok(bound, sup, defs, it.index@ as int) && bound.len() == seen_fields && seen_fields <= it.index@
+//@   loop 0 invariant [C03+C04+C05.value.fields.exact] (res && result@.len() == len0) <==> crate::fields_ok_upto(definitions, variables, v0, defs, it.index@ as int)
+//@   loop 0 prefix broadcast use crate::text_model; broadcast use vstd::std_specs::vec::axiom_vec_index_decreases; let ghost mut n: int = 0; proof { n = it.index@ as int; crate::axiom_text_obeys::<S>(); crate::axiom_text_obeys_str::<S>(); crate::lemma_fields_step(definitions, variables, v0, defs, n); assert(*expected_field == defs[n]); }
+//@   hint before 0 "match value_field {" :: [C03+C04+C05.value.named.h_find] let ghost name = crate::tv(expected_field.name.inner); let ghost rem = value__obj.fields@.as_ref(); let ghost mut fi: int = 0; proof { assert(rem.len() == sup.len()); assert(forall|i: int| 0 <= i < rem.len() ==> *(#[trigger] rem[i]) == sup[i]); if value_field is None { assert(!crate::some_named(sup, name)) by { assert forall|i: int| 0 <= i < sup.len() implies (#[trigger] sup[i]).0.name@ != name by { assert(*rem[i] == sup[i]); } } crate::lemma_bound_skip(bound, sup, defs, n); } else { assert(exists|i: int| 0 <= i < rem.len() && rem[i] == value_field->Some_0 && forall|j: int| 0 <= j < i ==> (*(#[trigger] rem[j])).0.name@ != name); fi = choose|i: int| 0 <= i < rem.len() && rem[i] == value_field->Some_0 && forall|j: int| 0 <= j < i ==> (*(#[trigger] rem[j])).0.name@ != name; assert(*rem[fi] == sup[fi]); assert(crate::is_first_named(sup, name, fi)) by { assert forall|k: int| 0 <= k < fi implies (#[trigger] sup[k]).0.name@ != name by { assert(*rem[k] == sup[k]); } } assert(crate::some_named(sup, name)); assert forall|i: int| crate::is_first_named(sup, name, i) implies i == fi by { if i < fi { assert(sup[i].0.name@ != name); } if fi < i { assert(sup[fi].0.name@ != name); } } crate::lemma_bound_insert(bound, sup, defs, n, fi); } }
+//@   hint before 0 "check_value( definitions, variables, value, &expected_field.r#type, result, );" :: [C03+C04+C05.value.named.h_bound] proof { assert(*value == sup[fi].1); bound = bound.insert(fi); vstd::set_lib::lemma_int_range(0, sup.len() as int); assert(bound.subset_of(vstd::set_lib::set_int_range(0, sup.len() as int))); vstd::set_lib::lemma_len_subset(bound, vstd::set_lib::set_int_range(0, sup.len() as int)); assert(decreases_to!(v0 => v0->ObjectValue_0)); let ov = v0->ObjectValue_0; assert(ov.fields@ == sup); assert(0 <= fi < ov.fields@.len()); assert(ov.fields@[fi].1 == *value); assert(decreases_to!(ov => ov.fields)); assert(decreases_to!(ov.fields => ov.fields@[fi])); assert(decreases_to!(ov.fields@[fi] => ov.fields@[fi].1)); }
+//@   hint before 0 "if seen_fields" :: [C03+C04+C05.value.named.h_count] proof { crate::lemma_bound_count(bound, sup, defs); }
+//@   wrap 0 "scalar_def.name.inner_ref().as_ref()" as &str :: [C03+C04+C05.value.named.exact_strict#scalar] proof { assert(r__@ == crate::tv(scalar_def.name.inner)); reveal_strlit("Boolean"); reveal_strlit("Int"); reveal_strlit("Float"); reveal_strlit("String"); reveal_strlit("ID"); crate::axiom_str_ext(r__, "Boolean"); crate::axiom_str_ext(r__, "Int"); crate::axiom_str_ext(r__, "Float"); crate::axiom_str_ext(r__, "String"); crate::axiom_str_ext(r__, "ID"); }
+//@   wrap 0 "enum_def.members.iter().all(|v| v.name != enum_name)" :: [C03+C04+C05.value.named.exact_strict#enum] proof { let ms = enum_def.members@; let rem = ms.as_ref(); assert(r__ == !(exists|k: int| 0 <= k < ms.len() && crate::tv((#[trigger] ms[k]).name.inner) == enum_name@)) by { if r__ { assert forall|k: int| 0 <= k < ms.len() implies crate::tv((#[trigger] ms[k]).name.inner) != enum_name@ by { assert(*rem[k] == ms[k]); } } else { let k = choose|k: int| 0 <= k < rem.len() && crate::tv((*(#[trigger] rem[k])).name.inner) == enum_name@; assert(*rem[k] == ms[k]); } } }
+//@   loop 1 invariant [C03+C04+C05.value.extra.inv] res == false && result@.len() == len0 + (result@.len() - len0) && crate::extends_errs(old(result)@, result@)
 //@ end
-//@ contract nitrogql_checker::common ::fn check_value
+//@ fragment contract_check_value.rs
 //@   unexternal
-//@   requires [C03+C04+C05.value.pre_schema_wf] crate::schema_wf(definitions)
-//@   ensures [C03+C04+C05.value.frame] crate::extends_errs(old(result)@, final(result)@)
-//@   ensures [C03+C04+C05.value.exact_strict] (final(result)@.len() == old(result)@.len()) <==> crate::value_ok(definitions, variables, *value, *expected_type, true)
-//@   ensures [C03+C05.value.sound] final(result)@.len() == old(result)@.len() ==> crate::value_ok(definitions, variables, *value, *expected_type, false)
-//@   ensures [C04+C05.value.complete] crate::value_ok(definitions, variables, *value, *expected_type, true) ==> final(result)@.len() == old(result)@.len()
+//@   ensures [C03+C05.value.sound] final(result)@.len() == old(result)@.len() ==> crate::value_valid_spec(definitions, variables, *value, *expected_type)
+//@   ensures [C04+C05.value.complete] crate::value_valid(definitions, variables, *value, *expected_type) ==> final(result)@.len() == old(result)@.len()
 //@   decreases [C03+C04+C05.value.terminates] *value, 2nat, *expected_type
 //@   prefix broadcast use crate::text_model; proof { crate::axiom_text_obeys::<S>(); crate::axiom_text_obeys_str::<S>(); if crate::value_ok(definitions, variables, *value, *expected_type, true) { crate::lemma_value_strict_implies_spec(definitions, variables, *value, *expected_type); } }
 //@   loops 2
